@@ -11,6 +11,13 @@ Proof. generalize (sin2_cos2 x). unfold Rsqr. lra. Qed.
 Lemma sqrt_sq_abs x : sqrt (x * x) = Rabs x.
 Proof. apply sqrt_Rsqr_abs. Qed.
 
+Lemma sin_atan_cos' t : sin (atan t) = t * cos (atan t).
+Proof.
+  rewrite sin_atan, cos_atan.
+  assert (0 < sqrt (1 + t²)) by (apply sqrt_lt_R0; generalize (Rle_0_sqr t); lra).
+  field. lra.
+Qed.
+
 (* sin (atan2 y x) = y / sqrt (x^2 + y^2) for x >= 0, (x, y) <> (0, 0) *)
 Lemma sin_atan2_right y x : 0 <= x -> 0 < x * x + y * y ->
   sin (atan2 y x) = y / sqrt (x * x + y * y).
@@ -29,6 +36,56 @@ Proof.
     + rewrite sin_PI2, Rabs_right by lra. field. lra.
     + destruct (Rlt_dec y 0) as [Hy'|Hy']; [|nra].
       rewrite sin_neg, sin_PI2, Rabs_left by lra. field. lra.
+Qed.
+
+(* cos / sin of atan2 in every quadrant *)
+Lemma hyp_pos y x : 0 < x * x + y * y -> 0 < sqrt (x * x + y * y).
+Proof. apply sqrt_lt_R0. Qed.
+
+Lemma atan_quot_cos y x : x <> 0 -> cos (atan (y / x)) = Rabs x / sqrt (x * x + y * y).
+Proof.
+  intro Hx. rewrite cos_atan.
+  assert (Hn : 0 < x * x + y * y) by (assert (0 < x * x) by nra; generalize (Rle_0_sqr y); unfold Rsqr; lra).
+  assert (E : 1 + (y / x)² = (x * x + y * y) / (x * x)) by (unfold Rsqr; field; exact Hx).
+  rewrite E. rewrite sqrt_div_alt by nra. rewrite sqrt_sq_abs.
+  assert (0 < sqrt (x * x + y * y)) by (apply hyp_pos, Hn).
+  assert (0 < Rabs x) by (apply Rabs_pos_lt, Hx).
+  field. split; lra.
+Qed.
+Lemma atan_quot_sin y x : x <> 0 -> sin (atan (y / x)) = y / x * (Rabs x / sqrt (x * x + y * y)).
+Proof. intro Hx. rewrite sin_atan_cos', atan_quot_cos by exact Hx. reflexivity. Qed.
+
+Lemma cos_atan2 y x : 0 < x * x + y * y -> cos (atan2 y x) = x / sqrt (x * x + y * y).
+Proof.
+  intro Hn. assert (Hr := hyp_pos y x Hn). unfold atan2.
+  destruct (Rlt_dec 0 x) as [Hp|Hp].
+  { rewrite atan_quot_cos by lra. rewrite Rabs_right by lra. reflexivity. }
+  destruct (Rlt_dec x 0) as [Hm|Hm].
+  { destruct (Rle_dec 0 y).
+    - rewrite neg_cos, atan_quot_cos by lra. rewrite Rabs_left by lra. field. lra.
+    - replace (atan (y / x) - PI) with (atan (y / x) + PI - 2 * PI) by ring.
+      rewrite cos_minus, cos_2PI, sin_2PI, neg_cos, atan_quot_cos by lra.
+      rewrite Rabs_left by lra. field. lra. }
+  assert (x = 0) by lra. subst x.
+  destruct (Rlt_dec 0 y); [rewrite cos_PI2; field; lra|].
+  destruct (Rlt_dec y 0); [rewrite cos_neg, cos_PI2; field; lra | nra].
+Qed.
+
+Lemma sin_atan2 y x : 0 < x * x + y * y -> sin (atan2 y x) = y / sqrt (x * x + y * y).
+Proof.
+  intro Hn. assert (Hr := hyp_pos y x Hn). unfold atan2.
+  destruct (Rlt_dec 0 x) as [Hp|Hp].
+  { rewrite atan_quot_sin by lra. rewrite Rabs_right by lra. field. split; lra. }
+  destruct (Rlt_dec x 0) as [Hm|Hm].
+  { destruct (Rle_dec 0 y).
+    - rewrite neg_sin, atan_quot_sin by lra. rewrite Rabs_left by lra. field. split; lra.
+    - replace (atan (y / x) - PI) with (atan (y / x) + PI - 2 * PI) by ring.
+      rewrite sin_minus, cos_2PI, sin_2PI, neg_sin, atan_quot_sin by lra.
+      rewrite Rabs_left by lra. field. split; lra. }
+  assert (x = 0) by lra. subst x.
+  replace (0 * 0 + y * y) with (y * y) in * by ring. rewrite sqrt_sq_abs.
+  destruct (Rlt_dec 0 y); [rewrite sin_PI2, Rabs_right by lra; field; lra|].
+  destruct (Rlt_dec y 0); [rewrite sin_neg, sin_PI2, Rabs_left by lra; field; lra | nra].
 Qed.
 
 Section Bound.
@@ -132,5 +189,106 @@ Proof.
   assert (0 <= Rabs (sin d * (1 - N) - rs * k)) by apply Rabs_pos.
   assert (0 < / (1 - q)) by (apply Rinv_0_lt_compat; lra).
   nra.
+Qed.
+
+(* ---- the displacement as an angle between directions.  Frame: x towards the geocentric right
+   ascension of the body, z north.  u = (cos d, 0, sin d) geocentric direction, o = (rc cos H,
+   rc sin H, rs) observer, w = u - k o = (A, B, wz) topocentric vector;  the code returns the
+   direction v of right ascension offset da = atan2(B, A) and declination dd = atan2(wz, hypot(A,B)). *)
+Let da := atan2 B A.
+Let dd := atan2 wz (sqrt (A * A + B * B)).
+Let vx := cos dd * cos da.
+Let vy := cos dd * sin da.
+Let vz := sin dd.
+
+Lemma N2_pos : q < 1 -> 0 < N2.
+Proof. intro Hq. assert (Hq0 := q_nonneg). destruct N2_bounds as [Hlo _]. nra. Qed.
+
+Lemma v_is_w_normalised : q < 1 ->
+  vx = A / sqrt N2 /\ vy = B / sqrt N2 /\ vz = wz / sqrt N2.
+Proof.
+  intro Hq. assert (HN2 := N2_pos Hq).
+  assert (Hab : 0 <= A * A + B * B) by (generalize (Rle_0_sqr A) (Rle_0_sqr B); unfold Rsqr; lra).
+  assert (Hnn : sqrt (A * A + B * B) * sqrt (A * A + B * B) + wz * wz = N2)
+    by (rewrite sqrt_sqrt by exact Hab; reflexivity).
+  assert (HN : 0 < sqrt N2) by (apply sqrt_lt_R0, HN2).
+  assert (Ecd : cos dd = sqrt (A * A + B * B) / sqrt N2).
+  { unfold dd. rewrite cos_atan2 by (rewrite Hnn; exact HN2). rewrite Hnn. reflexivity. }
+  assert (Esd : sin dd = wz / sqrt N2).
+  { unfold dd. rewrite sin_atan2 by (rewrite Hnn; exact HN2). rewrite Hnn. reflexivity. }
+  unfold vx, vy, vz. rewrite Ecd, Esd.
+  destruct (Req_dec (A * A + B * B) 0) as [Hz|Hz].
+  - assert (A = 0) by nra. assert (B = 0) by nra.
+    rewrite Hz, sqrt_0. rewrite H0, H1. repeat split; unfold Rdiv; ring.
+  - assert (Hp : 0 < A * A + B * B) by lra.
+    assert (Hr := hyp_pos B A Hp).
+    unfold da. rewrite cos_atan2, sin_atan2 by exact Hp.
+    repeat split; field; split; lra.
+Qed.
+
+(* |u x v|^2 <= q^2 and u.v > 0: the angle theta between the geocentric and the topocentric
+   direction satisfies sin theta <= q = rho |k| and is acute, i.e. theta <= asin(rho sin(pi0)/distance) *)
+Theorem displacement_bound : q < 1 ->
+  (0 * vz - sin d * vy) * (0 * vz - sin d * vy)
+  + (sin d * vx - cos d * vz) * (sin d * vx - cos d * vz)
+  + (cos d * vy - 0 * vx) * (cos d * vy - 0 * vx) <= q * q
+  /\ 0 < cos d * vx + 0 * vy + sin d * vz.
+Proof.
+  intro Hq. assert (HN2 := N2_pos Hq). assert (Hq0 := q_nonneg).
+  destruct (v_is_w_normalised Hq) as (Ex & Ey & Ez). rewrite Ex, Ey, Ez.
+  assert (HN : 0 < sqrt N2) by (apply sqrt_lt_R0, HN2).
+  assert (HNN : sqrt N2 * sqrt N2 = N2) by (apply sqrt_sqrt; lra).
+  set (ox := rc * cos H). set (oy := rc * sin H). set (oz := rs).
+  (* u = w + k o *)
+  assert (Ux : cos d = A + k * ox) by (unfold A, ox; ring).
+  assert (Uy : 0 = B + k * oy) by (unfold B, oy; ring).
+  assert (Uz : sin d = wz + k * oz) by (unfold wz, oz; ring).
+  (* cross product: u x w = k (o x w) *)
+  set (cx := oy * wz - oz * B). set (cy := oz * A - ox * wz). set (cz := ox * B - oy * A).
+  assert (Lag : cx * cx + cy * cy + cz * cz + (ox * A + oy * B + oz * wz) * (ox * A + oy * B + oz * wz)
+                = (ox * ox + oy * oy + oz * oz) * N2) by (unfold cx, cy, cz, N2; ring).
+  assert (Eo : ox * ox + oy * oy + oz * oz = rc * rc + rs * rs).
+  { unfold ox, oy, oz. generalize (sq_sc' H). intro. 
+    replace (rc * cos H * (rc * cos H) + rc * sin H * (rc * sin H)) with (rc * rc * (sin H * sin H + cos H * cos H)) by ring.
+    rewrite H0. ring. }
+  assert (Hc2 : cx * cx + cy * cy + cz * cz <= (rc * rc + rs * rs) * N2).
+  { rewrite <- Eo, <- Lag. generalize (Rle_0_sqr (ox * A + oy * B + oz * wz)). unfold Rsqr. lra. }
+  split.
+  - assert (Ecross :
+      (0 * (wz / sqrt N2) - sin d * (B / sqrt N2)) * (0 * (wz / sqrt N2) - sin d * (B / sqrt N2))
+      + (sin d * (A / sqrt N2) - cos d * (wz / sqrt N2)) * (sin d * (A / sqrt N2) - cos d * (wz / sqrt N2))
+      + (cos d * (B / sqrt N2) - 0 * (A / sqrt N2)) * (cos d * (B / sqrt N2) - 0 * (A / sqrt N2))
+      = k * k * (cx * cx + cy * cy + cz * cz) / N2).
+    {       assert (EB : B = - (k * oy)) by lra.
+      assert (T1 : 0 * wz - sin d * B = k * cx) by (rewrite Uz; unfold cx; rewrite EB; ring).
+      assert (T2 : sin d * A - cos d * wz = k * cy) by (rewrite Uz, Ux; unfold cy; ring).
+      assert (T3 : cos d * B - 0 * A = k * cz) by (rewrite Ux; unfold cz; rewrite EB; ring).
+      replace (0 * (wz / sqrt N2) - sin d * (B / sqrt N2)) with ((0 * wz - sin d * B) / sqrt N2) by (field; lra).
+      replace (sin d * (A / sqrt N2) - cos d * (wz / sqrt N2)) with ((sin d * A - cos d * wz) / sqrt N2) by (field; lra).
+      replace (cos d * (B / sqrt N2) - 0 * (A / sqrt N2)) with ((cos d * B - 0 * A) / sqrt N2) by (field; lra).
+      rewrite T1, T2, T3.
+      transitivity (k * k * (cx * cx + cy * cy + cz * cz) / (sqrt N2 * sqrt N2)); [field; lra | rewrite HNN; reflexivity]. }
+    rewrite Ecross. rewrite q_sq.
+    apply Rmult_le_reg_r with N2; [exact HN2|].
+    unfold Rdiv. rewrite Rmult_assoc, Rinv_l, Rmult_1_r by lra.
+    assert (0 <= k * k) by (generalize (Rle_0_sqr k); unfold Rsqr; lra).
+    replace ((rc * rc + rs * rs) * (k * k) * N2) with (k * k * ((rc * rc + rs * rs) * N2)) by ring.
+    apply Rmult_le_compat_l; assumption.
+  - replace (cos d * (A / sqrt N2) + 0 * (B / sqrt N2) + sin d * (wz / sqrt N2))
+      with ((cos d * A + sin d * wz) / sqrt N2) by (field; lra).
+    apply Rdiv_lt_0_compat; [|exact HN].
+    assert (Edot : cos d * A + sin d * wz = 1 - k * (rc * (cos d * cos H) + rs * sin d)).
+    { unfold A, wz. generalize (sq_sc' d). intro Hd.
+      replace (cos d * (cos d - rc * k * cos H) + sin d * (sin d - rs * k))
+        with (sin d * sin d + cos d * cos d - k * (rc * (cos d * cos H) + rs * sin d)) by ring.
+      rewrite Hd. reflexivity. }
+    rewrite Edot. generalize dot_bound. intro Hb.
+    unfold Rabs in Hb. destruct (Rcase_abs _) in Hb; lra.
+Qed.
+
+(* the correction in right ascension in the form the code computes it *)
+Lemma dalpha_tan : 0 < A -> tan da = B / A.
+Proof.
+  intro HA. unfold da, atan2. destruct (Rlt_dec 0 A); [|lra]. apply tan_atan.
 Qed.
 End Bound.
